@@ -553,4 +553,296 @@ theorem ft_size_spec {t : FT} {es : Spec} (h : RIF t es) : t.size = es.length :=
   rw [← hlen, hperm.length_eq]
   simp [specIds]
 
+
+/-! ### reconstruct: what happens to the store -/
+
+theorem length_removeNth {α} (l : List α) (c : Nat) (hc : c < l.length) : (removeNth l c).length + 1 = l.length := by
+  induction l generalizing c with
+  | nil => simp at hc
+  | cons x xs ih =>
+    cases c with
+    | zero => simp [removeNth]
+    | succ c =>
+      simp only [removeNth, List.length_cons] at *
+      have := ih c (by omega); omega
+
+theorem removeNth_perm {α} (l : List α) (c : Nat) (d : α) (hc : c < l.length) : (l.getD c d :: removeNth l c).Perm l := by
+  induction l generalizing c with
+  | nil => simp at hc
+  | cons x xs ih =>
+    cases c with
+    | zero => simp [removeNth]
+    | succ c =>
+      simp only [removeNth, List.getD_cons_succ]
+      simp only [List.length_cons] at hc
+      exact (List.Perm.swap x (xs.getD c d) (removeNth xs c)).trans ((ih c (by omega)).cons x)
+
+/-- the oracle-driven shuffle is a permutation -/
+theorem permute_perm {α} [Inhabited α] (fuel : Nat) (o : List Nat) (l : List α) (hf : l.length ≤ fuel) :
+    (permute fuel o l).1.Perm l := by
+  induction fuel generalizing o l with
+  | zero =>
+    have : l = [] := List.eq_nil_of_length_eq_zero (by omega)
+    subst this; exact List.Perm.refl _
+  | succ fuel ih =>
+    cases l with
+    | nil => exact List.Perm.refl _
+    | cons x xs =>
+      simp only [permute]
+      have hc : o.headD 0 % (x :: xs).length < (x :: xs).length := Nat.mod_lt _ (by simp)
+      have hl := length_removeNth (x :: xs) _ hc
+      refine ((ih (o.drop 1) (removeNth (x :: xs) _) (by omega)).cons _).trans ?_
+      exact removeNth_perm (x :: xs) _ default hc
+
+theorem shuffle_perm {α} [Inhabited α] (o : List Nat) (l : List α) : (shuffle o l).1.Perm l :=
+  permute_perm l.length o l (Nat.le_refl _)
+
+/-- `scanKeep` only appends entries of the bucket -/
+theorem scanKeep_rem (F : List Nat) (b : Bucket) (s : RState) :
+    ∃ rem, (scanKeep F b s).entries = s.entries ++ rem ∧ ∀ e ∈ rem, e ∈ b := by
+  induction b generalizing s with
+  | nil => exact ⟨[], by simp [scanKeep], fun e he => nomatch he⟩
+  | cons e r ih =>
+    simp only [scanKeep]
+    split
+    · obtain ⟨rem, h1, h2⟩ := ih { f := assign s.f e.2, entries := s.entries ++ [e], done := true }
+      refine ⟨e :: rem, by rw [h1]; simp, fun x hx => ?_⟩
+      rcases List.mem_cons.mp hx with rfl | hx'
+      · exact List.mem_cons_self ..
+      · exact List.mem_cons_of_mem _ (h2 x hx')
+    · obtain ⟨rem, h1, h2⟩ := ih s
+      exact ⟨rem, h1, fun x hx => List.mem_cons_of_mem _ (h2 x hx)⟩
+
+/-- `scanRemove` splits the bucket into what stays and what is appended to the collected entries -/
+theorem scanRemove_rem (F : List Nat) (fuel : Nat) (pre rest : List Entry) (s : RState) :
+    ∃ rem, (scanRemove F fuel pre rest s).2.entries = s.entries ++ rem ∧
+      (pre.reverse ++ rest).Perm ((scanRemove F fuel pre rest s).1 ++ rem) := by
+  induction fuel generalizing pre rest s with
+  | zero => exact ⟨[], by simp [scanRemove], by simp [scanRemove]⟩
+  | succ fuel ih =>
+    cases rest with
+    | nil => exact ⟨[], by simp [scanRemove], by simp [scanRemove]⟩
+    | cons e r =>
+      simp only [scanRemove]
+      split
+      · cases hl : r.getLast? with
+        | none =>
+          have : r = [] := List.getLast?_eq_none_iff.mp hl
+          subst this
+          exact ⟨[e], rfl, List.Perm.refl _⟩
+        | some l =>
+          obtain ⟨ys, rfl⟩ := List.getLast?_eq_some_iff.mp hl
+          simp only [List.dropLast_concat]
+          obtain ⟨rem, h1, h2⟩ := ih pre (l :: ys) { f := assign s.f e.2, entries := s.entries ++ [e], done := true }
+          refine ⟨e :: rem, by rw [h1]; simp, ?_⟩
+          -- pre.reverse ++ e :: (ys ++ [l])  ~  e :: (pre.reverse ++ (l :: ys))  ~  e :: (b' ++ rem)  ~  b' ++ e :: rem
+          have p1 : (pre.reverse ++ e :: (ys ++ [l])).Perm (e :: (pre.reverse ++ (ys ++ [l]))) := List.perm_middle
+          have p2 : (ys ++ [l]).Perm (l :: ys) := List.perm_append_comm
+          have p3 := (p2.append_left pre.reverse).trans h2
+          exact p1.trans ((p3.cons e).trans List.perm_middle.symm)
+      · obtain ⟨rem, h1, h2⟩ := ih (e :: pre) r s
+        refine ⟨rem, h1, ?_⟩
+        simpa [List.reverse_cons, List.append_assoc] using h2
+
+
+def headIs (i v : Nat) (e : Entry) : Bool := e.2.head? == some (i, v)
+
+/-- entries removed so far that belonged to bucket (i, v) -/
+def remOf (remove : Bool) (ents : List Entry) (i v : Nat) : List Entry := if remove then ents.filter (headIs i v) else []
+
+/-- every bucket, together with what was moved out of it, is a rearrangement of the original bucket -/
+def GInv (F : List Nat) (keys0 : List (List Bucket)) (remove : Bool) (keys : List (List Bucket)) (s : RState) : Prop :=
+  ShapeF F keys ∧ ∀ i v, i < F.length → v < F.getD i 0 →
+    (bucket keys i v ++ remOf remove s.entries i v).Perm (bucket keys0 i v)
+
+theorem headIs_inj {i v i' v' : Nat} {e : Entry} (h1 : headIs i v e = true) (h2 : headIs i' v' e = true) : i = i' ∧ v = v' := by
+  simp only [headIs, beq_iff_eq] at h1 h2
+  rw [h1] at h2
+  simp only [Option.some.injEq, Prod.mk.injEq] at h2
+  exact h2
+
+theorem visit_ginv (F : List Nat) (keys0 : List (List Bucket)) (remove : Bool)
+    (H0 : ∀ i v, i < F.length → v < F.getD i 0 → ∀ e ∈ bucket keys0 i v, headIs i v e = true)
+    (keys : List (List Bucket)) (s : RState) (o v : Nat) (ho : o < F.length) (hv : v < F.getD o 0)
+    (h : GInv F keys0 remove keys s) (b b' : Bucket) (s' : RState) (hbperm : b.Perm (bucket keys o v))
+    (hrem : remove = true → ∃ rem, s'.entries = s.entries ++ rem ∧ b.Perm (b' ++ rem))
+    (hkeep : remove = false → b' = b) :
+    GInv F keys0 remove (modBucket keys o v (fun _ => b')) s' := by
+  have hsub : ∀ e ∈ bucket keys o v, headIs o v e = true := by
+    intro e he
+    exact H0 o v ho hv e ((h.2 o v ho hv).subset (List.mem_append_left _ he))
+  refine ⟨shapeF_mod h.1 _ _ _, fun i w hi hw => ?_⟩
+  have hin : o < keys.length ∧ v < (keys.getD o []).length := ⟨by rw [h.1.1]; exact ho, by rw [h.1.2 o ho]; exact hv⟩
+  rw [bucket_modBucket_eq]
+  cases remove with
+  | false =>
+    simp only [remOf, Bool.false_eq_true, if_false, List.append_nil]
+    have := h.2 i w hi hw
+    simp only [remOf, Bool.false_eq_true, if_false, List.append_nil] at this
+    split
+    · rename_i hc
+      obtain ⟨rfl, rfl, _, _⟩ := hc
+      rw [hkeep rfl]
+      exact hbperm.trans this
+    · exact this
+  | true =>
+    obtain ⟨rem, hr2, hr1⟩ := hrem rfl
+    have hremhead : ∀ e ∈ rem, headIs o v e = true := by
+      intro e he
+      exact hsub e (hbperm.subset (hr1.symm.subset (List.mem_append_right _ he)))
+    simp only [remOf, if_true, hr2, List.filter_append]
+    have hold := h.2 i w hi hw
+    simp only [remOf, if_true] at hold
+    by_cases hc : o = i ∧ v = w
+    · obtain ⟨rfl, rfl⟩ := hc
+      rw [if_pos ⟨rfl, rfl, hin.1, hin.2⟩]
+      have hfilt : rem.filter (headIs o v) = rem := List.filter_eq_self.mpr hremhead
+      rw [hfilt]
+      have p1 : (b' ++ (s.entries.filter (headIs o v) ++ rem)).Perm ((b' ++ rem) ++ s.entries.filter (headIs o v)) := by
+        rw [List.append_assoc]
+        exact List.Perm.append_left _ List.perm_append_comm
+      exact p1.trans (((hr1.symm.trans hbperm).append_right _).trans hold)
+    · rw [if_neg (fun hh => hc ⟨hh.1, hh.2.1⟩)]
+      have hfilt : rem.filter (headIs i w) = [] := by
+        rw [List.filter_eq_nil_iff]
+        intro e he hh
+        have := headIs_inj (hremhead e he) hh
+        exact hc this
+      rw [hfilt, List.append_nil]
+      exact hold
+
+theorem reconValues_ginv (F : List Nat) (keys0 : List (List Bucket)) (remove : Bool)
+    (H0 : ∀ i v, i < F.length → v < F.getD i 0 → ∀ e ∈ bucket keys0 i v, headIs i v e = true)
+    (o : Nat) (ho : o < F.length) (vs : List Nat) (hvs : ∀ v ∈ vs, v < F.getD o 0)
+    (keys : List (List Bucket)) (s : RState) (orc : List Nat) (h : GInv F keys0 remove keys s) :
+    GInv F keys0 remove (reconValues F remove o vs keys s orc).1 (reconValues F remove o vs keys s orc).2.1 := by
+  induction vs generalizing keys s orc with
+  | nil => exact h
+  | cons v vs ih =>
+    have hv := hvs v (List.mem_cons_self ..)
+    have hvs' : ∀ w ∈ vs, w < F.getD o 0 := fun w hw => hvs w (List.mem_cons_of_mem _ hw)
+    have hbperm : (shuffle orc (bucket keys o v)).1.Perm (bucket keys o v) := shuffle_perm orc _
+    cases remove with
+    | true =>
+      obtain ⟨rem, h1, h2⟩ := scanRemove_rem F ((shuffle orc (bucket keys o v)).1.length + 1) [] (shuffle orc (bucket keys o v)).1 s
+      have hstep := visit_ginv F keys0 true H0 keys s o v ho hv h (shuffle orc (bucket keys o v)).1
+        (scanRemove F ((shuffle orc (bucket keys o v)).1.length + 1) [] (shuffle orc (bucket keys o v)).1 s).1
+        (scanRemove F ((shuffle orc (bucket keys o v)).1.length + 1) [] (shuffle orc (bucket keys o v)).1 s).2
+        hbperm (fun _ => ⟨rem, h1, by simpa using h2⟩) (fun hh => by cases hh)
+      simp only [reconValues, if_true]
+      split
+      · exact hstep
+      · exact ih hvs' _ _ _ hstep
+    | false =>
+      have hstep := visit_ginv F keys0 false H0 keys s o v ho hv h (shuffle orc (bucket keys o v)).1
+        (shuffle orc (bucket keys o v)).1 (scanKeep F (shuffle orc (bucket keys o v)).1 s)
+        hbperm (fun hh => by cases hh) (fun _ => rfl)
+      simp only [reconValues, Bool.false_eq_true, if_false]
+      split
+      · exact hstep
+      · exact ih hvs' _ _ _ hstep
+
+theorem reconFactors_ginv (F : List Nat) (keys0 : List (List Bucket)) (remove : Bool)
+    (H0 : ∀ i v, i < F.length → v < F.getD i 0 → ∀ e ∈ bucket keys0 i v, headIs i v e = true)
+    (os : List Nat) (hos : ∀ o ∈ os, o < F.length)
+    (keys : List (List Bucket)) (s : RState) (orc : List Nat) (h : GInv F keys0 remove keys s) :
+    GInv F keys0 remove (reconFactors F remove os keys s orc).1 (reconFactors F remove os keys s orc).2.1 := by
+  induction os generalizing keys s orc with
+  | nil => exact h
+  | cons o os ih =>
+    have ho := hos o (List.mem_cons_self ..)
+    have hos' : ∀ o' ∈ os, o' < F.length := fun o' h' => hos o' (List.mem_cons_of_mem _ h')
+    simp only [reconFactors]
+    split
+    · rename_i hset
+      have := reconValues_ginv F keys0 remove H0 o ho [s.f.getD o 0]
+        (fun v hv => by simp only [List.mem_singleton] at hv; subst hv; exact hset) keys { s with done := true } orc h
+      exact ih hos' _ _ _ this
+    · have := reconValues_ginv F keys0 remove H0 o ho (shuffle orc (List.range (F.getD o 0))).1
+        (fun v hv => List.mem_range.mp (permute_subset _ _ _ v hv)) keys { s with done := false }
+        (shuffle orc (List.range (F.getD o 0))).2 h
+      exact ih hos' _ _ _ this
+
+/-- the stored entries after a reconstruction -/
+def esAfter (remove : Bool) (es : Spec) (E : List Entry) : Spec :=
+  if remove then es.filter (fun e => !(E.contains e)) else es
+
+/-- **reconstruct and the store**: without removal the index still holds exactly the same entries
+    (buckets only rearranged); with removal it holds exactly the stored entries that were not returned.
+    For every shuffle outcome. -/
+theorem reconstruct_store {t : FT} {es : Spec} (h : RIF t es) (q : PF) (remove : Bool) (orc : List Nat) :
+    RIF (t.reconstruct q remove orc).1 (esAfter remove es (t.reconstruct q remove orc).2.1) := by
+  have H0 : ∀ i v, i < t.F.length → v < t.F.getD i 0 → ∀ e ∈ bucket t.keys i v, headIs i v e = true := by
+    intro i v hi hv e he
+    simp only [headIs, beq_iff_eq]
+    exact ((h.mem i v e hi hv).mp he).2
+  have hg0 : GInv t.F t.keys remove t.keys { f := assign t.F q, entries := [], done := false } := by
+    refine ⟨h.shape, fun i v _ _ => ?_⟩
+    simp [remOf]
+  have hg := reconFactors_ginv t.F t.keys remove H0 (shuffle orc (List.range t.F.length)).1
+    (fun o ho => List.mem_range.mp (permute_subset _ _ _ o ho)) t.keys _ (shuffle orc (List.range t.F.length)).2 hg0
+  -- names for the results
+  have hkeys : (t.reconstruct q remove orc).1.keys = (reconFactors t.F remove (shuffle orc (List.range t.F.length)).1 t.keys
+      { f := assign t.F q, entries := [], done := false } (shuffle orc (List.range t.F.length)).2).1 := rfl
+  have hents : (t.reconstruct q remove orc).2.1 = (reconFactors t.F remove (shuffle orc (List.range t.F.length)).1 t.keys
+      { f := assign t.F q, entries := [], done := false } (shuffle orc (List.range t.F.length)).2).2.1.entries := rfl
+  have hF : (t.reconstruct q remove orc).1.F = t.F := rfl
+  have hC : (t.reconstruct q remove orc).1.counter = t.counter := rfl
+  obtain ⟨hshape, hperm⟩ := hg
+  rw [← hkeys] at hshape hperm
+  rw [← hents] at hperm
+  generalize (t.reconstruct q remove orc).2.1 = E at *
+  generalize ht' : (t.reconstruct q remove orc).1 = t' at *
+  have hnd0 : ∀ i v, (bucket t.keys i v).Nodup := fun i v =>
+    List.nodup_iff_pairwise_ne.mpr (List.Pairwise.of_map (·.1) (fun a b hab heq => hab (by rw [heq])) (List.nodup_iff_pairwise_ne.mp (h.nodupB i v)))
+  have hsubset : ∀ e ∈ esAfter remove es E, e ∈ es := by
+    intro e he
+    unfold esAfter at he
+    split at he
+    · exact (List.mem_filter.mp he).1
+    · exact he
+  refine ⟨by rw [hF]; exact hshape, ?_, ?_, ?_, ?_, ?_⟩
+  · intro i v e hi hv
+    rw [hF] at hi hv
+    have hp := hperm i v hi hv
+    cases remove with
+    | false =>
+      simp only [remOf, Bool.false_eq_true, if_false, List.append_nil] at hp
+      simp only [esAfter, Bool.false_eq_true, if_false]
+      rw [hp.mem_iff, h.mem i v e hi hv]
+    | true =>
+      simp only [remOf, if_true] at hp
+      simp only [esAfter, if_true, List.mem_filter, Bool.not_eq_true', List.contains_eq_mem, decide_eq_false_iff_not]
+      have hnd : (bucket t'.keys i v ++ E.filter (headIs i v)).Nodup := hp.nodup_iff.mpr (hnd0 i v)
+      rw [List.nodup_append] at hnd
+      constructor
+      · intro he
+        have he0 : e ∈ bucket t.keys i v := hp.subset (List.mem_append_left _ he)
+        obtain ⟨hes, hhd⟩ := (h.mem i v e hi hv).mp he0
+        refine ⟨⟨hes, fun hE => ?_⟩, hhd⟩
+        have : e ∈ E.filter (headIs i v) := List.mem_filter.mpr ⟨hE, by simp only [headIs, beq_iff_eq]; exact hhd⟩
+        exact hnd.2.2 e he e this rfl
+      · rintro ⟨⟨hes, hnE⟩, hhd⟩
+        have he0 : e ∈ bucket t.keys i v := (h.mem i v e hi hv).mpr ⟨hes, hhd⟩
+        rcases List.mem_append.mp (hp.symm.subset he0) with h' | h'
+        · exact h'
+        · exact absurd (List.mem_filter.mp h').1 hnE
+  · intro id e he; rw [hC]; exact h.lt id e (hsubset _ he)
+  · unfold esAfter
+    split
+    · exact h.asc.sublist ((List.filter_sublist).map _)
+    · exact h.asc
+  · intro id e he; rw [hF]; exact h.valid id e (hsubset _ he)
+  · intro i v
+    by_cases hin : i < t.F.length ∧ v < t.F.getD i 0
+    · have hp := hperm i v hin.1 hin.2
+      have : ((bucket t'.keys i v ++ remOf remove E i v).map (·.1)).Nodup := (hp.map _).nodup_iff.mpr (h.nodupB i v)
+      rw [List.map_append, List.nodup_append] at this
+      exact this.1
+    · have : bucket t'.keys i v = [] := by
+        rw [List.eq_nil_iff_forall_not_mem]
+        intro e he
+        exact hin (bucket_in_range hshape he)
+      rw [this]; exact List.nodup_nil
+
 end AITB.Trie
